@@ -96,6 +96,13 @@ def batch(n, seed):
         except ValueError as e:
             if "Cannot invert" in str(e):
                 refused += 1
+                # the self-test uses an ABSOLUTE tolerance of 1e-6, so it may legitimately refuse bound sets
+                # with |bound| >~ 1e8 (relative rounding 1e-16..1e-14); on the unchanged tree every one of 196
+                # refusals in 40 000 generated sets had max|bound| >= 6e8.  A refusal of a small-magnitude set
+                # is not one of those and is judged.
+                fin_ = np.concatenate([np.asarray(lb, float)[np.isfinite(lb)], np.asarray(ub, float)[np.isfinite(ub)], np.asarray(plb, float), np.asarray(pub, float)])
+                if np.max(np.abs(fin_)) < 1e8:
+                    viol.setdefault("C11/valid-bound-set-refused-by-selftest", dict(ctx, exc=str(e)[:120]))
                 continue
             viol.setdefault("C11/valid-bound-set-rejected", dict(ctx, exc=str(e)[:200]))
             continue
